@@ -215,11 +215,11 @@ func runC10(c *Ctx) {
 			ln := x.Args[3]
 			f := cborField{path: fieldPath(ln, recv), kind: itoa(int(maj)), cap: -1, pos: ci.Pos()}
 			// cap: dominating (len(X) > K) == false, in the function the header is written in
-			for _, fct := range c.FactsAt(ci.Block()) {
+			for _, fct := range c.OuterFacts(ev) { // (also the tests made by the helpers on the way to the header write)
 				if fct.Val {
 					continue
 				}
-				if m, ok := Match(Op("binop", ">", Bind("l"), Bind("k")), subst(fct.Cond, ev.Env)); ok {
+				if m, ok := Match(Op("binop", ">", Bind("l"), Bind("k")), fct.Cond); ok {
 					if fieldPath(m["l"], recv) == f.path {
 						if k, ok := constInt(m["k"]); ok {
 							f.cap = k
@@ -329,8 +329,15 @@ func c10Arity(c *Ctx, enc, dec *Fn) {
 	c.Check(okEnc, "C10.B3-arity", enc.Name+" › header announces 3 iff no original peer", enc.SSA.Pos(), "array header 0x83 when OrigPeer is empty, 0x84 otherwise", "array header does not announce (3 fields iff OrigPeer empty, else 4)")
 	// encoder: text header written only when len(OrigPeer) != 0, and success return nil when == 0
 	okBody := false
-	for _, cs := range c.Calls(enc.SSA, Call("cbor-gen.WriteMajorTypeHeaderBuf", Any(), Any(), Const("3"))) {
-		_, g := c.Guarded(cs.In, Bin("==", Op("builtin", "len", Field("OrigPeer", Any())), Const("0")), false)
+	// (the text-string header may be written through a header helper: the call is looked up through helpers, in the
+	// encoder's terms, and placed at the instruction of the encoder it executes under)
+	var origWrites []ssa.Instruction
+	for _, st := range c.CallsInl(enc.SSA, Call("cbor-gen.WriteMajorTypeHeaderBuf", Any(), Any(), Const("3")), 2) {
+		if st.Outer().Parent() != enc.SSA {
+			continue
+		}
+		origWrites = append(origWrites, st.Outer())
+		_, g := c.Guarded(st.Outer(), Bin("==", Op("builtin", "len", Field("OrigPeer", Any())), Const("0")), false)
 		okBody = g
 	}
 	// every success return that skips the fourth field does so only because it is empty
@@ -340,8 +347,8 @@ func c10Arity(c *Ctx, enc, dec *Fn) {
 			continue
 		}
 		wroteOrig := false
-		for _, cs := range c.Calls(enc.SSA, Call("cbor-gen.WriteMajorTypeHeaderBuf", Any(), Any(), Const("3"))) {
-			if Precedes(cs.In, ret) {
+		for _, w := range origWrites {
+			if Precedes(w, ret) {
 				wroteOrig = true
 			}
 		}
